@@ -32,6 +32,13 @@ WORKLOADS = [
     ('C14', dict(fixtures=40, random_programs=4), 40, 1),
     ('C15', dict(documents=300, random_programs=3, pair_programs=1), 300, 1),
     ('C19', dict(histories=6000), 6000, 6),
+    ('C05', dict(random_histories=600), 600, 3),
+    ('C08', dict(nbase=2, step=97), 80, 2),
+    ('C09', dict(pair_cases=100, pairs_per_case=200, api_cases=64, triples_per_case=60), 437, 3),
+    ('C11', dict(), 2352, 40),
+    ('C18', dict(maxlen=3, long_cases=64), 70, 1),
+    # C16's own: strings whose normal form has another length than the string (buffer sizing of the normalisation code)
+    ('own:normsizes', dict(), 0, 24),
 ]
 
 
@@ -107,6 +114,74 @@ class Proxy:
         return n
 
 
+_SIZE_CHARS = None
+
+
+def size_changing_chars():
+    """characters whose NFC form, or whose name normal form, differs in length (UTF-16 units) from the character,
+    selected with Python's tables (a selection, not an oracle), plus a sample of the others that change at all"""
+    global _SIZE_CHARS
+    if _SIZE_CHARS is None:
+        import unicodedata
+        u = lambda t: len(t.encode('utf-16-le', 'surrogatepass')) // 2
+        changed, same = [], []
+        for cp in range(0x110000):
+            if 0xd800 <= cp <= 0xdfff:
+                continue
+            c = chr(cp)
+            nfc = unicodedata.normalize('NFC', c)
+            nfd = unicodedata.normalize('NFD', c)
+            if nfc == c and nfd == c and c.casefold() == c:
+                continue
+            full = unicodedata.normalize('NFC', nfd.casefold())
+            (changed if (u(nfc) != u(c) or u(full) != u(c)) else same).append(c)
+        _SIZE_CHARS = changed + same[::37]
+    return _SIZE_CHARS
+
+
+def own_normsizes(proxy, L, picks):
+    """each picked character, behind 0..11 ASCII characters (so that every allocation size class is met), goes through
+    every entry point that normalises: table keys, packet names, cif_normalize, block codes and data names"""
+    import ctypes as C
+    chars = size_changing_chars()
+    for i in picks:
+        c = chars[i % len(chars)]
+        for pad in range(12):
+            key = 'k' * pad + c + ('z' if pad % 3 == 0 else '')
+            scope = LedgerScope(L).__enter__()
+            t = L.make_value(('table', ()))
+            v = L.make_value(('char', 'v', True))
+            L.call('cif_value_set_item_by_key', t, U(key), v)
+            p = C.c_void_p()
+            L.call('cif_value_get_item_by_key', t, U(key), C.byref(p))
+            L.call('cif_value_set_item_by_key', t, U(key), None)
+            L.table_keys(t)
+            L.call('cif_value_remove_item_by_key', t, U(key), None)
+            L.value_free(t)
+            rc, pk = L.packet_create(['_' + key])
+            if rc == CIF_OK:
+                L.packet_set(pk, '_' + key, v)
+                L.packet_names(pk)
+                L.packet_remove(pk, '_' + key, want=False)
+                L.packet_free(pk)
+            L.normalize(key)
+            L.normalize('_' + key, srclen=pad + 1)
+            rc, cif = L.create()
+            rc, blk = L.create_block(cif, key)
+            if rc == CIF_OK:
+                L.set_value(blk, '_' + key, v)
+                rc, g = L.get_value(blk, '_' + key)
+                if rc == CIF_OK:
+                    L.value_free(g)
+                L.container_free(blk)
+            L.destroy(cif)
+            L.value_free(v)
+            proxy.drain_events(dict(char='U+%04X' % ord(c), pad=pad))
+            for suffix, detail in scope.finish():
+                proxy.violation(suffix, detail, dict(char='U+%04X' % ord(c), pad=pad))
+        proxy._ctx.count('own_normsize_characters')
+
+
 def sessions(nsessions):
     """session number -> (mode, workload index, slice number)"""
     out = []
@@ -135,15 +210,23 @@ def worker(ctx):
         ctx.add('modes', mode)
         ctx.add('workloads', label)
         rng = ctx.rng('C16-pick', i)
-        picks = sorted(rng.sample(range(total), per))
-        if label not in mods:
-            mods[label] = importlib.import_module('vp.checks.' + label)
+        if label.startswith('own:'):
+            # systematic: slice after slice walks through the whole list
+            base = (slice_no * len(MODES) + MODES.index(mode)) * per
+            picks = list(range(base, base + per))
+        else:
+            picks = sorted(rng.sample(range(total), per))
+            if label not in mods:
+                mods[label] = importlib.import_module('vp.checks.' + label)
         proxy = Proxy(ctx, label, params, picks, mode, i)
         calls0 = L.ncalls
         scope = LedgerScope(L).__enter__()
         L.rounding = L.ROUND[mode] if mode != 'nearest' else None
         try:
-            mods[label].worker(proxy)
+            if label == 'own:normsizes':
+                own_normsizes(proxy, L, picks)
+            else:
+                mods[label].worker(proxy)
         except Exception as e:      # a replayed harness may stumble where its oracle assumes the default rounding mode
             ctx.count('replayed_workload_exceptions')
             ctx.add('exception_kinds', type(e).__name__)
@@ -177,7 +260,7 @@ def valgrind_stage(env):
 
 
 def run(env):
-    n = 480 if env.quick else 12000
+    n = 720 if env.quick else 18000
     res = env.run_pool(MODULE, dict(sessions=n), nshards=16, case_timeout=600, total_timeout=3000 if env.quick else 40000)
     inconclusive = list(res.inconclusive)
     if res.count('sessions') < n and not res.violations:
